@@ -36,6 +36,27 @@ class D(Driver):
         ("picosvg.svg", "SVG.remove_processing_instructions"),
         ("picosvg.svg", "SVG.set_attributes"),
         ("picosvg.svg", "SVG.append_to"),
+        # every public operation the histories are made of
+        ("picosvg.svg", "SVG.absolute"),
+        ("picosvg.svg", "SVG.shapes_to_paths"),
+        ("picosvg.svg", "SVG.expand_shorthand"),
+        ("picosvg.svg", "SVG.resolve_use"),
+        ("picosvg.svg", "SVG.simplify"),
+        ("picosvg.svg", "SVG.clip_to_viewbox"),
+        ("picosvg.svg", "SVG.evenodd_to_nonzero_winding"),
+        ("picosvg.svg", "SVG.round_floats"),
+        ("picosvg.svg", "SVG.remove_empty_subpaths"),
+        ("picosvg.svg", "SVG.remove_unpainted_shapes"),
+        ("picosvg.svg", "SVG.remove_nonsvg_content"),
+        ("picosvg.svg", "SVG.remove_anonymous_symbols"),
+        ("picosvg.svg", "SVG.remove_title_meta_desc"),
+        ("picosvg.svg", "SVG.remove_attributes"),
+        ("picosvg.svg", "SVG.normalize_opacity"),
+        ("picosvg.svg", "SVG.topicosvg"),
+        ("picosvg.svg", "SVG.shapes"),
+        ("picosvg.svg", "SVG.bounding_box"),
+        ("picosvg.svg", "SVG.checkpicosvg"),
+        ("picosvg.svg", "SVG.toetree"),
     )
     nt_floor = {"quick": 1500, "thorough": 15000}
     time_budget = {"quick": 240, "thorough": 1800}
